@@ -60,7 +60,7 @@ func TestVerif_C16_Target(t *testing.T) {
 				}
 			}
 		}
-		for _, sel := range []string{"labels", "annotations", "expr", "fail-label", "fail-annotation", "fail-label-finalizer"} {
+		for _, sel := range []string{"labels", "annotations", "expr", "fail-label", "fail-annotation", "fail-label-finalizer", "fail-label-leftover"} {
 			cases = append(cases, c16Case{kind, "add", "add", "different", sel == "fail-label-finalizer", sel})
 		}
 	}
@@ -97,7 +97,7 @@ func runC16(t *testing.T, c c16Case) {
 	lsel := &metav1.LabelSelector{MatchLabels: map[string]string{"decorate": uid}}
 	asel := &v1alpha1.AnnotationSelector{MatchAnnotations: map[string]string{"decor": "on"}}
 	switch c.Selector {
-	case "both", "fail-label", "fail-annotation", "fail-label-finalizer":
+	case "both", "fail-label", "fail-annotation", "fail-label-finalizer", "fail-label-leftover":
 		cfg.LabelSel, cfg.AnnotationSel = lsel, asel
 	case "labels":
 		cfg.LabelSel = lsel
@@ -123,7 +123,7 @@ func runC16(t *testing.T, c c16Case) {
 	target := sim.NewObject(ti, ns, "t-"+uid)
 	labels := map[string]string{"decorate": uid, "keep": "x"}
 	anns := map[string]string{"decor": "on", "keep": "x"}
-	if c.Selector == "fail-label" || c.Selector == "fail-label-finalizer" {
+	if c.Selector == "fail-label" || c.Selector == "fail-label-finalizer" || c.Selector == "fail-label-leftover" {
 		labels["decorate"] = "someone-else"
 	}
 	if c.Selector == "fail-annotation" {
@@ -132,7 +132,9 @@ func runC16(t *testing.T, c c16Case) {
 	sim.SetLabels(target, labels)
 	sim.SetAnnotations(target, anns)
 	sim.SetNested(target, []interface{}{"example.com/foreign"}, "metadata", "finalizers")
-	if c.Selector == "fail-label-finalizer" {
+	if c.Selector == "fail-label-finalizer" || c.Selector == "fail-label-leftover" {
+		// (fail-label-leftover: no finalize hook is configured, so the finalizer is a leftover that
+		// is to be removed - and the object is not to be decorated on that occasion)
 		sim.SetNested(target, []interface{}{"example.com/foreign", finName}, "metadata", "finalizers")
 	}
 	spec := sim.Obj{"payload": sim.Obj{"a": int64(1), "l": []interface{}{"x"}}}
@@ -240,6 +242,9 @@ func runC16(t *testing.T, c c16Case) {
 					continue
 				}
 				if !selected {
+					if c.Selector == "fail-label-leftover" && targetDiff(q.Pre, q.Post, map[string]bool{}, map[string]bool{}, false, finName) == "" {
+						continue // only the leftover finalizer went away
+					}
 					viol("unselected-target-written", "a target that fails the selectors (and carries no finalizer) was written: "+q.String(), sr)
 					continue
 				}
